@@ -524,7 +524,9 @@ class MinMaxAggregator:
         new_terms = [Function(LOC, chain_name, [var_prev, var_next], False)] + list(terms)
 
         newargs = translation.translate_parameters(oldmax.atom.symbol.arguments)
-        newargs = [next_ if i == idx else x for i, x in enumerate(newargs)]
+        # idx is the position of the result in the old predicate
+        newidx = list(translation.mapping)[idx]
+        newargs = [next_ if i == newidx else x for i, x in enumerate(newargs)]
         for arg in newargs:
             assert isinstance(arg, AST)
         chainpred = Literal(
